@@ -14,7 +14,7 @@ LEVEL = "exploration"
 RULE = ("E1/E2: ('table', t) every entry of S, Si, T1-T8, U1-U4, rcon against the GF(2^8) definitions; ('key1', size, pos) / ('blk1', size, pos) "
         "all 256 values of one active key / block byte at every position for 128/192/256-bit keys, encrypt + decrypt + inversion vs the "
         "reference cipher; ('kat', i) FIPS-197 vectors and seed keys; ('mode', ...) ECB, CBC, CFB(1,8,16), OFB, CTR vs reference modes for "
-        "every length 1..64 (block modes: multiples of 16) x IV {none, zero, seed}, CTR start {0,1,2^64-1,2^128-2,2^128-1}; "
+        "every length 1..64 (block modes: multiples of 16) x IV {none, zero, seed}, CTR start values carrying across every byte boundary (2^(8j)-1, 2^(8j)-2 for j = 1..16) incl. wrap-around; "
         "('feed', mode, dir, padding, L, k) ALL ways to cut an input of length L at <= k points (empty feeds included) through Encrypter/"
         "Decrypter; ('adapter', L, iv, key) create_AES128 encrypt/decrypt/mac for every length 1..96; ('hist', ops) every sequence of <= d "
         "operations over 3 adapter objects x {enc d1, enc d2, dec x, mac d1}, each result compared with a fresh object; ('pad', n). "
@@ -55,7 +55,8 @@ def table_def(name, x):
 
 TABLES = ["S", "Si", "T1", "T2", "T3", "T4", "T5", "T6", "T7", "T8", "U1", "U2", "U3", "U4", "rcon"]
 MODES = ["ecb", "cbc", "cfb1", "cfb8", "cfb16", "ofb", "ctr"]
-CTR_STARTS = [1, 0, (1 << 64) - 1, (1 << 128) - 2, (1 << 128) - 1]
+# counter values whose increment carries across every byte boundary (2^(8j) - 1 and - 2 for every j), plus wrap-around
+CTR_STARTS = [1, 0] + [(1 << (8 * j)) - d for j in range(1, 17) for d in (1, 2)] + [(1 << 127) - 1, 0x00FF00FF00FF00FF00FF00FF00FF00FF]
 FEED_L = [1, 15, 16, 17, 31, 32, 33, 47, 48, 49]
 
 KATS = [
@@ -280,7 +281,14 @@ def run_case(ctx, case):
         obj = mk_mode("ctr", key, None, start)
         out = obj.encrypt(data[:L // 2]) + obj.encrypt(data[L // 2:])
         if out != A.ctr_crypt(key, data, start):
-            o.viol("mode|ctr-start", "CTR from counter %d, %d bytes differs" % (start, L))
+            o.viol("mode|ctr-start", "CTR from counter %#x, %d bytes differs" % (start, L))
+        # the Counter object itself: value after k increments
+        c = paes.Counter(start)
+        for k in range(4):
+            if bytes(c.value) != ((start + k) % (1 << 128)).to_bytes(16, "big"):
+                o.viol("mode|counter-increment", "Counter(%#x) after %d increments is %s" % (start, k, bytes(c.value).hex()))
+                break
+            c.increment()
         return o
     if kind == "feed":
         _, m, direction, padding, L, k = case
